@@ -62,19 +62,20 @@ type PodSpec struct {
 }
 
 type Config struct {
-	Stack      string    `json:"stack"`
-	Adapters   int       `json:"adapters"`
-	IPv4Per    int       `json:"ipv4_per"`
-	IPv6Per    int       `json:"ipv6_per"`
-	Trunk      bool      `json:"trunk"`
-	ERDMA      bool      `json:"erdma"`
-	MinPool    int       `json:"min_pool"`
-	MaxPool    int       `json:"max_pool"`
-	PreENIs    []PreENI  `json:"pre_enis"`
-	Pods       []PodSpec `json:"pods"`
-	Populated  string    `json:"populated"` // "" | "synced" | "bound" | "bound-no-uid": initial Node status
-	GCPeriodS  int       `json:"gc_period_s"`
-	HeartbeatS int       `json:"heartbeat_s"`
+	Stack       string    `json:"stack"`
+	Adapters    int       `json:"adapters"`
+	IPv4Per     int       `json:"ipv4_per"`
+	IPv6Per     int       `json:"ipv6_per"`
+	Trunk       bool      `json:"trunk"`
+	ERDMA       bool      `json:"erdma"`
+	MinPool     int       `json:"min_pool"`
+	MaxPool     int       `json:"max_pool"`
+	PreENIs     []PreENI  `json:"pre_enis"`
+	Pods        []PodSpec `json:"pods"`
+	CacheSyncMs int       `json:"cache_sync_ms,omitempty"` // phase between the agent's CRD loops and its collection loop
+	Populated   string    `json:"populated"`               // "" | "synced" | "bound" | "bound-no-uid": initial Node status
+	GCPeriodS   int       `json:"gc_period_s"`
+	HeartbeatS  int       `json:"heartbeat_s"`
 }
 
 func (c *Config) v4() bool { return c.Stack == "v4" || c.Stack == "dual" }
@@ -112,12 +113,19 @@ type podState struct {
 	uidGen  int
 	exists  bool
 	sb      int
+	sbs     []string // sandboxes of the current pod (uid) for which an ADD was invoked
 	sbLive  bool
 	exited  bool            // the pod object remains but its sandbox has exited (phase Succeeded)
 	v4, v6  string          // what the pod reports (status)
 	delUIDs map[string]bool // UIDs for which a DEL was processed by the daemon (passed the gate)
 	goneAt  time.Time
 	delDone time.Time
+}
+
+type rtStamps struct {
+	ini, del         time.Time
+	present, delLost bool
+	lost             int // times a stale copy undid the entry or its teardown stamp
 }
 
 type World struct {
@@ -152,8 +160,14 @@ type World struct {
 	faultPlan map[string]string
 
 	pendingInstance map[string]string
-	pendingSince    map[string]int  // reconcile number in which the interface was created
-	everRecorded    map[string]bool // interface ids that appeared in a record that reached the API server
+	pendingSince    map[string]int      // reconcile number in which the interface was created
+	cniInFlight     map[string]int      // pod uid -> CNI requests between invoke and return
+	passStartUID    map[string]string   // pod name -> uid, for the pods that existed when the current reconcile began
+	rtSeen          map[string]rtStamps // pod uid -> newest CNI stamps the agent ever wrote to the runtime object
+	delComplete     map[string]bool     // pod uid -> the DEL of every sandbox of the pod returned success
+	addOK           map[string]bool     // pod uid -> an ADD for it succeeded: the agent holds a record of the pod
+	addFailed       map[string]bool     // pod uid -> an ADD for it failed (and was rolled back by the agent)
+	everRecorded    map[string]bool     // interface ids that appeared in a record that reached the API server
 	pending         []chan struct{}
 
 	// truth mirrors maintained from API writes
@@ -211,7 +225,7 @@ func (ClusterWorld) Run(t *testing.T, scAny any, chooser simrt.Chooser, keepLog 
 	defer os.RemoveAll(dir)
 	return kit.Execute(t, chooser, keepLog, 600_000, func(run *kit.Run) {
 		w := &World{run: run, sc: sc, cfg: &sc.Cfg, dir: dir, faultIdx: map[string]int{}, faultPlan: map[string]string{},
-			pendingInstance: map[string]string{}, pendingSince: map[string]int{}, everRecorded: map[string]bool{}, delProcessed: map[string]bool{}, trigger: make(chan struct{}, 1)}
+			pendingInstance: map[string]string{}, pendingSince: map[string]int{}, everRecorded: map[string]bool{}, cniInFlight: map[string]int{}, addFailed: map[string]bool{}, addOK: map[string]bool{}, delComplete: map[string]bool{}, rtSeen: map[string]rtStamps{}, delProcessed: map[string]bool{}, trigger: make(chan struct{}, 1)}
 		w.main()
 	})
 }
@@ -273,6 +287,7 @@ func (w *World) createPod(p *podState) {
 	p.uid = fmt.Sprintf("uid-%s-%d", p.spec.Name, p.uidGen)
 	p.exists = true
 	p.exited = false
+	p.sbs = nil
 	p.v4, p.v6 = "", ""
 	if err := w.api.Inner.Create(context.Background(), w.podObject(p)); err != nil {
 		panic(fmt.Sprintf("harness: create pod: %v", err))
@@ -426,6 +441,7 @@ func (w *World) startDaemon() error {
 	knode := &corev1.Node{ObjectMeta: metav1.ObjectMeta{Name: nodeName, UID: "node-uid"}}
 	kk := k8s.NewForSim(w.api.Client, &yieldStorage{w, podDB}, daemon.ModeENIMultiIP, nodeName, "kube-system", knode, svcCIDR, w.cfg.ERDMA)
 	crd := eni.NewCRDV2ForSim(w.api.Client, nodeName)
+	crd.CacheSync = time.Duration(w.cfg.CacheSyncMs) * time.Millisecond
 	mgr := eni.NewManager(0, 0, 0, 0, []eni.NetworkInterface{crd}, daemon.EniSelectionPolicyMostIPs, nil)
 	w.svc = terwaydaemon.NewSimService(kk, &yieldStorage{w, res}, mgr, daemon.ModeENIMultiIP, types.IPAMTypeCRD, w.cfg.v4(), w.cfg.v6(), false)
 	started := make(chan error, 1)
@@ -489,6 +505,12 @@ func (w *World) startController() {
 			w.reconciles++
 			before := w.cloud.mutations
 			w.inReconcile = true
+			w.passStartUID = map[string]string{}
+			for _, p := range w.pods {
+				if p.exists {
+					w.passStartUID[p.spec.Name] = p.uid
+				}
+			}
 			res, err := w.ctl.Reconcile(context.Background(), reconcile.Request{NamespacedName: k8stypes.NamespacedName{Name: nodeName}})
 			w.inReconcile = false
 			if err != nil {
